@@ -67,6 +67,39 @@ def parse_sx(text: str):
     return stack[0][0]
 
 
+# a sample of (case line, raw answer of the extracted program) kept for the in-Coq cross-check of the extraction
+SAMPLE: list[tuple[str, str]] = []
+SAMPLE_MAX = 40
+SAMPLE_LINE_MAX = 6000
+
+
+def coq_eval(lines: list[str], tag: str = "x") -> list[str] | None:
+    """evaluate run_line on the given lines inside Coq (vm_compute), return the answers, None if coqc fails"""
+    import re
+    work = VERIF / ".work"
+    work.mkdir(exist_ok=True)
+    f = work / f"cases_{tag}_{os.getpid()}.v"
+    body = ";\n  ".join('"' + ln + '"' for ln in lines)
+    f.write_text("From Coq Require Import List String.\nFrom SV Require Import Lib.Str Driver.Driver.\nImport ListNotations.\nOpen Scope string_scope.\n"
+                 f"Definition inputs : list string := [\n  {body}].\n"
+                 "Eval vm_compute in (map (fun s => string_of_list_ascii (run_line (list_ascii_of_string s))) inputs).\n")
+    try:
+        r = subprocess.run(["timeout", "300", "coqc", "-R", str(COQ), "SV", str(f)], capture_output=True, text=True, cwd=str(work))
+    finally:
+        for ext in (".v", ".vo", ".vok", ".vos", ".glob"):
+            try:
+                f.with_suffix(ext).unlink()
+            except OSError:
+                pass
+        try:
+            (work / ("." + f.stem + ".aux")).unlink()
+        except OSError:
+            pass
+    if r.returncode != 0:
+        return None
+    return re.findall(r'"([^"]*)"', r.stdout)
+
+
 def run_model(cases: list[str], shards: int = 8) -> list:
     """Run the extracted model on the given case lines, return the parsed answers (same order)."""
     if not cases:
@@ -107,6 +140,11 @@ def run_model(cases: list[str], shards: int = 8) -> list:
         lines = results[s]
         for k, idx in enumerate(range(s, len(cases), shards)):
             merged[idx] = lines[k]  # type: ignore[index]
+    if len(SAMPLE) < SAMPLE_MAX:
+        step = max(1, len(cases) // 8)
+        for i in range(0, len(cases), step):
+            if len(SAMPLE) < SAMPLE_MAX and len(cases[i]) <= SAMPLE_LINE_MAX and len(merged[i] or "") <= SAMPLE_LINE_MAX:
+                SAMPLE.append((cases[i], merged[i]))
     return [parse_sx(x) for x in merged]  # type: ignore[arg-type]
 
 
